@@ -48,7 +48,7 @@ fn reserved_h2(w: &World, cid: usize) -> bool {
 pub fn on_issue(w: &mut World, rid: usize) {
     let origin = w.reqs[rid].origin.clone();
     let h2 = w.reqs[rid].h2;
-    if !w.cfg.with_pool {
+    if !w.cfg.with_pool || w.auto.is_some() {
         return;
     }
     // candidates by shadow state; requests that are still checking out and popped a connection at their
@@ -89,7 +89,8 @@ pub fn on_dial_created(w: &mut World, did: usize) {
         w.violate("C04", "R4:request-dialed-twice", format!("r{rid} started dial d{did} although it already started d{prev}"));
     }
     w.reqs[rid].dial = Some(did);
-    if !w.cfg.with_pool {
+    if !w.cfg.with_pool || w.auto.is_some() {
+        // the remaining rules reason about atomic steps; under real threads only R4 is judged
         return;
     }
     if w.reqs[rid].state != ReqState::Checkout {
@@ -158,7 +159,7 @@ fn live_waiters(w: &World, origin: &str, not: Option<usize>) -> Vec<usize> {
 pub fn on_conn_ready(w: &mut World, cid: usize) {
     // a new hand-back supersedes whatever was expected of this connection before
     w.offers.retain(|o| o.conn != cid);
-    if !w.cfg.with_pool || w.conns[cid].h2 {
+    if !w.cfg.with_pool || w.conns[cid].h2 || w.auto.is_some() {
         w.conns[cid].to_idle_at_ready = true;
         return;
     }
@@ -188,7 +189,7 @@ pub fn offer_to_next_waiter(w: &mut World, cid: usize) {
     // HTTP/2 registration: called on the second reuse() of a step (first delivery to a waiter)
     // with max_idle_per_host = 0 nothing is retained, so a waiter that was released from the queue (and
     // has not re-joined yet) legitimately misses the registration
-    if w.cfg.max_idle_per_host > 0 && !w.offers.iter().any(|o| o.conn == cid && o.step == w.step) {
+    if w.auto.is_none() && w.cfg.max_idle_per_host > 0 && !w.offers.iter().any(|o| o.conn == cid && o.step == w.step) {
         offer(w, cid, true);
     }
 }
@@ -247,7 +248,7 @@ fn origin_diff(a: &str, b: &str) -> &'static str {
 }
 
 pub fn on_handoff(w: &mut World, rid: usize, cid: usize, is_reused: bool, uri: &http::Uri) {
-    let step = w.step;
+    let step = w.tick();
     w.count("handoffs");
     let r_origin = w.reqs[rid].origin.clone();
     let c = &w.conns[cid];
@@ -269,10 +270,10 @@ pub fn on_handoff(w: &mut World, rid: usize, cid: usize, is_reused: bool, uri: &
     }
 
     // ---- C06
-    if c_origin != r_origin {
+    if origin_norm(&c_origin) != origin_norm(&r_origin) {
         w.violate(
             "C06",
-            format!("cross-origin-handoff:{}", origin_diff(&c_origin, &r_origin)),
+            format!("cross-origin-handoff:{}", origin_diff(&origin_norm(&c_origin), &origin_norm(&r_origin))),
             format!("r{rid} for {r_origin} was given c{cid} which was dialed for {c_origin}"),
         );
     }
@@ -296,9 +297,9 @@ pub fn on_handoff(w: &mut World, rid: usize, cid: usize, is_reused: bool, uri: &
     // ---- C05
     if let Some(cs) = c_closed {
         let issued = w.reqs[rid].issued_step;
-        if cs < issued {
+        if cs < issued && (w.auto.is_none() || c_handoffs > 0) {
             w.violate("C05", "closed-before-issue", format!("c{cid} closed at step {cs}, given to r{rid} issued at step {issued}"));
-        } else if !c_h2 && c_handoffs > 0 && (c_released.map(|rel| cs <= rel).unwrap_or(false) || c_ready.is_none() || c_ready < c_released) {
+        } else if w.auto.is_none() && !c_h2 && c_handoffs > 0 && (c_released.map(|rel| cs <= rel).unwrap_or(false) || c_ready.is_none() || c_ready < c_released) {
             w.violate("C05", "closed-before-handback", format!("c{cid} closed at step {cs} before it was handed back (released {c_released:?}, ready {c_ready:?}), given to r{rid}"));
         } else {
             w.count("c05_closed_after_issue_handoffs_not_judged");
